@@ -158,19 +158,40 @@ def A(v, rt=False):
     return [v, bool(rt)]
 
 
+def GA(src, a, b):
+    """a frequency-type argument written as an expression over a getter of the same buzzer:
+    get_last_frequency() * a + b (src "last") or get_frequency() * a + b (src "cur"); slot 0 holds the value
+    the expression has when the call is made (filled in by resolve_feedback / by the oracle from the trace)"""
+    return [None, "g", {"src": src, "a": a, "b": b}]
+
+
+def is_derived(a):
+    return a is not None and a[1] == "g"
+
+
+def wfreq(a):
+    if is_derived(a):
+        g = a[2]
+        return [1 if g["src"] == "last" else 2, Fr(g["a"]), Fr(g["b"])]
+    return qfreq(a)
+
+
+FREQ_KEYS = {"play": ("f",), "beep": ("f",), "sweep": ("s", "e"), "melody": ("tempo",), "stop": ()}
+
+
 def wire_call(c):
     k = c["k"]
     if k == "play":
-        return [0, qfreq(c["f"])] if c["d"] is None else [1, qfreq(c["f"]), qdur(c["d"])]
+        return [0, wfreq(c["f"])] if c["d"] is None else [1, wfreq(c["f"]), qdur(c["d"])]
     if k == "stop":
         return [2]
     if k == "beep":
-        return [3, [] if c["f"] is None else [qfreq(c["f"])], qdur(c["on"] or [DEF["on"], False]),
+        return [3, [] if c["f"] is None else [wfreq(c["f"])], qdur(c["on"] or [DEF["on"], False]),
                 qdur(c["off"] or [DEF["off"], False]), qint(c["times"] or [DEF["times"], False])]
     if k == "sweep":
-        return [4, qfreq(c["s"]), qfreq(c["e"]), qdur(c["d"]), qint(c["steps"] or [DEF["steps"], False])]
+        return [4, wfreq(c["s"]), wfreq(c["e"]), qdur(c["d"]), qint(c["steps"] or [DEF["steps"], False])]
     if k == "melody":
-        return [5, c["name"].lower(), [] if c["tempo"] is None else [qfreq(c["tempo"])]]
+        return [5, c["name"].lower(), [] if c["tempo"] is None else [wfreq(c["tempo"])]]
     raise ValueError(k)
 
 
@@ -185,7 +206,7 @@ def wire_case(case):
 
 def model_segments(out):
     """model output -> [getters0, (events, getters) ...]"""
-    evs = out[1]
+    evs = [e for e in out[1] if e[0] != 9]
     segs, cur, i = [], [], 0
     while i < len(evs):
         e = evs[i]
@@ -198,6 +219,11 @@ def model_segments(out):
             cur.append(("T", e[1], e[2]) if e[0] == 0 else ("NT", e[1]) if e[0] == 1 else ("D", e[1]))
             i += 1
     return segs
+
+
+def model_shown(out):
+    """model output -> per call, the values of its frequency-type arguments (entries tagged 9)"""
+    return [[C.wq(x) for x in e[1:]] for e in out[1] if e[0] == 9]
 
 
 # ----------------------------------------------------------------------------- cases -> script
@@ -216,8 +242,12 @@ class Sketch:
         self.ids = []
         self._tl, self._tr = self.lines, self.reads
 
-    def expr(self, a):
-        v, rt = a
+    def expr(self, a, var=None):
+        if is_derived(a):
+            g = a[2]
+            getter = "get_last_frequency" if g["src"] == "last" else "get_frequency"
+            return f"({var}.{getter}() * {g['a']!r} + {g['b']!r})"
+        v, rt = a[0], a[1]
         if not rt:
             return repr(v)
         name = f"r{self.nvar}"
@@ -236,7 +266,7 @@ class Sketch:
     def call_line(self, var, c, style):
         k = c["k"]
         if k == "play":
-            f = self.expr(c["f"])
+            f = self.expr(c["f"], var)
             if c["d"] is None:
                 return f"{var}.play_tone({f})" if style % 2 == 0 else f"{var}.play_tone(frequency={f})"
             d = self.expr(c["d"])
@@ -251,7 +281,7 @@ class Sketch:
             mode = style % 3
             parts, positional = [], (mode == 2 and c["f"] is not None)
             if c["f"] is not None:
-                f = self.expr(c["f"])
+                f = self.expr(c["f"], var)
                 parts.append(f"frequency={f}" if mode == 1 else f)
             for key, kw in (("on", "on_ms"), ("off", "off_ms"), ("times", "times")):
                 if c[key] is not None:
@@ -263,7 +293,7 @@ class Sketch:
                 parts.reverse()
             return f"{var}.beep({', '.join(parts)})"
         if k == "sweep":
-            s, e, d = self.expr(c["s"]), self.expr(c["e"]), self.expr(c["d"])
+            s, e, d = self.expr(c["s"], var), self.expr(c["e"], var), self.expr(c["d"])
             if style % 3 == 2:           # fully positional
                 tail = "" if c["steps"] is None else f", {self.expr(c['steps'])}"
                 return f"{var}.sweep({s}, {e}, {d}{tail})"
@@ -274,7 +304,7 @@ class Sketch:
             nm = f'"{c["name"]}"' if style % 2 == 0 else f'name="{c["name"]}"'
             if c["tempo"] is None:
                 return f"{var}.melody({nm})"
-            t = self.expr(c["tempo"])
+            t = self.expr(c["tempo"], var)
             return f"{var}.melody({nm}, {t})" if style % 4 == 0 else f"{var}.melody({nm}, tempo={t})"
         raise ValueError(k)
 
@@ -410,6 +440,8 @@ def beep_pattern(pin, t, on, off, n):
 
 def oracle(ctx, case, segs, spec, strict_steps=False):
     """the C16 clauses, evaluated on the firmware trace of one case (segs from fw_segments)"""
+    if case.get("kind") == "feedback":
+        case = resolve_from_trace(case, segs)
     pin, eps = case["pin"], tol(case)
     d0 = case["default"]
     default = f32(440.0 if d0 is None else d0)
@@ -691,6 +723,34 @@ def build_cases(ctx):
             cases[-1].update({"for_passes": passes, "body": body})     # `for k in range(P):` in setup()
         else:
             cases[-1].update({"passes": passes, "body": body})         # `while True:` -> loop(), P passes
+    # (6) state feedback: frequency-type arguments written as expressions over the buzzer's own getters
+    #     (evaluated by the firmware when the call is made); values resolved by resolve_feedback
+    seeds = [play(440), play(440.5), play(220.25), play(65535), play(1), play(440, 50), beep(880, 1, 1, 2),
+             sweep(100, 800, 10, 2), melody("scale_c"), play(0), beep(None, 1, 0, 1)]
+    for n in range(600 if thorough else 60):
+        calls = [dict(seeds[n % len(seeds)])]
+        for _ in range(rng.randint(1, 3)):
+            g = lambda: GA(rng.choice(["last", "last", "cur"]), rng.choice([1, 2, 0.5, -1]),
+                           rng.choice([0, 10, -100, 0.5, -1000, 0.25, 100]))
+            kind = rng.choice(["play", "play", "beep", "sweep", "sweep", "melody", "plain"])
+            if kind == "play":
+                c = play(440, rng.choice([None, 0, 5, 2.5]))
+                c["f"] = g()
+            elif kind == "beep":
+                c = beep(440, rng.choice([0, 1, 5]), rng.choice([0, 1, 5]), rng.choice([1, 2, 3]))
+                c["f"] = g()
+            elif kind == "sweep":
+                c = sweep(rng.choice([100, 440.5, 0, 2000]), rng.choice([100, 880, 0, -5]), rng.choice([0, 10, 50]),
+                          rng.choice([1, 2, 3, 5]))
+                for key in rng.choice([("s",), ("e",), ("s", "e")]):
+                    c[key] = g()
+            elif kind == "melody":
+                c = melody(rng.choice(SEVEN), 100)
+                c["tempo"] = g()
+            else:
+                c = random_call(rng)
+            calls.append(c)
+        add("feedback", calls, rng.choice([None, 523.25, 440.5, 0]), style=rng.randrange(6))
     # (5) two buzzers on different pins, calls interleaved: one buzzer's calls must not touch the other
     for n in range(300 if thorough else 30):
         a = [random_call(rng) for _ in range(rng.randint(1, 4))]
@@ -704,6 +764,53 @@ def build_cases(ctx):
             me.update({"duo_id": n, "duo_role": role, "duo_order": order,
                        "partner": {k: other[k] for k in ("pin", "default", "calls", "style")}})
     return cases
+
+
+def resolve_feedback(ctx, cases):
+    """fill in the values of getter-derived arguments (from the extracted model) so that the generation-time
+    filters can see them; a case is kept only if every such value is computed exactly by the firmware as well:
+    the getter value it is derived from has at most two decimals (it is printed with two) and the derived
+    value is a float32"""
+    idx = [i for i, c in enumerate(cases) if c["kind"] == "feedback"]
+    if not idx or not ctx.exe:
+        return [c for c in cases if c["kind"] != "feedback"], len(idx)
+    outs = ctx.model([wire_case(cases[i]) for i in idx])
+    drop = set()
+    for i, out in zip(idx, outs):
+        case = cases[i]
+        if out[0] != 0:
+            drop.add(i)
+            continue
+        shown, segs = model_shown(out), model_segments(out)
+        for j, c in enumerate(case["calls"]):
+            keys = [k for k in FREQ_KEYS[c["k"]] if c.get(k) is not None]
+            if len(shown[j]) != len(keys):
+                drop.add(i)
+                break
+            before = segs[j][1]                    # (state, frequency, last) when the call is made
+            for k, v in zip(keys, shown[j]):
+                if is_derived(c[k]):
+                    src = before[2] if c[k][2]["src"] == "last" else before[1]
+                    if (Fr(src) * 100).denominator != 1 or Fr(f32(float(v))) != v or abs(v) > 10 ** 6:
+                        drop.add(i)
+                    c[k][0] = float(v)
+    return [c for i, c in enumerate(cases) if i not in drop], len(drop)
+
+
+def resolve_from_trace(case, segs):
+    """the same values, read off the firmware's own trace: the getter value printed just before the call,
+    times a, plus b.  Property-level expectation, independent of the model."""
+    calls = []
+    for j, c in enumerate(case["calls"]):
+        c = dict(c)
+        for k in FREQ_KEYS[c["k"]]:
+            if is_derived(c.get(k)):
+                g = c[k][2]
+                before = segs[j][1]
+                src = Fr(repr(before[2] if g["src"] == "last" else before[1]))
+                c[k] = [float(src * Fr(g["a"]) + Fr(g["b"])), "g", g]
+        calls.append(c)
+    return dict(case, calls=calls)
 
 
 AUX_KEYS = ("passes", "for_passes", "body", "duo", "duo_id", "duo_role", "duo_order", "partner")
@@ -876,8 +983,8 @@ def shrink_failures(ctx, spec):
         m = re.match(r"call #(-?\d+)", f["what"])
         j = int(m.group(1)) if m else -1
         case = f["case"]
-        if j < 0 or len(case["calls"]) == 1:
-            continue
+        if j < 0 or len(case["calls"]) == 1 or case.get("kind") == "feedback":
+            continue          # (a sub-sequence of a feedback case has other getter values: not minimized)
         for calls in ([case["calls"][j]], case["calls"][:j + 1]):
             cands.append((key, plain(case, calls=calls, kind="minimized")))
     if not cands:
@@ -913,7 +1020,7 @@ def run(ctx: C.Ctx):
     spec = load_spec(ctx)
     n_names, n_acc = check_names(ctx, spec, impl_tables)
 
-    cases_all = build_cases(ctx)
+    cases_all, n_feedback_dropped = resolve_feedback(ctx, build_cases(ctx))
     n_out_guard = sum(1 for c in cases_all if not in_guard(c))
     cases = [c for c in cases_all if in_guard(c)]
     n_tone_zero = sum(1 for c in cases if not tone_zero_free(c, spec))
@@ -986,10 +1093,10 @@ def run(ctx: C.Ctx):
     ctx.coverage.update({
         "evaluations": len(cases) + n_names,
         "distinct_nontrivial": distinct,
-        "rule": "call sequences on one buzzer: (1) every point of the boundary grids (play_tone f x d, beep f x (on,off) x times, sweep s x e x (d,steps), melody x tempo; quick tier cycles the inner product, thorough takes it in full) chained four per case, literal and run-time (analog_read-routed) arguments alternating; (2) all ordered pairs over a 29-call boundary alphabet in four literal/run-time routings; (3) seeded random sequences of length <= 8 with per-argument routing, omitted defaults, keyword/positional spellings and case variants of melody names; (4) a body of 1-4 calls executed for 2-3 passes, inside `while True:` (loop(), state carried by the globals) or inside `for k in range(P):` in setup(); (5) two buzzers on different pins with randomly interleaved calls (each compared with its own model run; events on a foreign pin are failures). Thorough tier: a seventh of the cases re-run under clang++ ASan+UBSan. Getters are printed before the first and after every call. Non-trivial = contains a call other than stop; distinct by (default, calls).",
+        "rule": "call sequences on one buzzer: (1) every point of the boundary grids (play_tone f x d, beep f x (on,off) x times, sweep s x e x (d,steps), melody x tempo; quick tier cycles the inner product, thorough takes it in full) chained four per case, literal and run-time (analog_read-routed) arguments alternating; (2) all ordered pairs over a 29-call boundary alphabet in four literal/run-time routings; (3) seeded random sequences of length <= 8 with per-argument routing, omitted defaults, keyword/positional spellings and case variants of melody names; (4) a body of 1-4 calls executed for 2-3 passes, inside `while True:` (loop(), state carried by the globals) or inside `for k in range(P):` in setup(); (5) two buzzers on different pins with randomly interleaved calls (each compared with its own model run; events on a foreign pin are failures). (6) state feedback: a seed call, then 1-3 calls whose frequency / start / end / tempo argument is `get_last_frequency() * a + b` or `get_frequency() * a + b` of the same buzzer (the model evaluates the expression in its own state; the oracle takes the getter value the firmware printed just before the call). Thorough tier: a seventh of the cases re-run under clang++ ASan+UBSan. Getters are printed before the first and after every call. Non-trivial = contains a call other than stop; distinct by (default, calls).",
         "samples": [cases[0], cases[len(cases) // 2], cases[-1]],
         "distribution": {**dist, "cases": len(cases), "calls_compared": n_calls, "sketches": n_sketches,
-                         "cases_clean": n_ok, "cases_rerun_under_sanitizers": n_san, "outside_guard_not_generated": n_out_guard, "tone_zero_cases_compared_not_judged": n_tone_zero,
+                         "cases_clean": n_ok, "cases_rerun_under_sanitizers": n_san, "outside_guard_not_generated": n_out_guard, "feedback_cases_not_exact_dropped": n_feedback_dropped, "tone_zero_cases_compared_not_judged": n_tone_zero,
                          "float32_vs_exact_dropped": n_inexact, "melody_name_candidates": n_names, "melody_names_accepted": n_acc},
         "exhaustive": False,
         "guard": "the tone(pin, f >= 1) clause is judged only on cases without a sounded frequency in (0, 0.5) - arguments, default_frequency, interpolated sweep frequencies (F-C16-subhalf-frequency-tone-zero: rounded to tone(pin, 0); such cases are still generated and compared with the model); durations/on_ms/off_ms >= 0 (negative: F-C16-negative-runtime-duration, float->unsigned UB); sweep tone count / first / last judged only for steps >= 1 (F-C16-sweep-steps-clamped; the calls are still generated and compared with the model); no beep with trunc(times) < 1 while a tone is left running (F-C16-beep-zero-keeps-tone); integer outputs on which float32 and exact-rational arithmetic differ are not generated (count in distribution.float32_vs_exact_dropped)",
